@@ -12,8 +12,8 @@ func (en *Engine) callArgs(st *State, fr *Frame, c *ssa.CallCommon) (name string
 	if c.IsInvoke() {
 		recv := en.eval(st, fr, c.Value)
 		// devirtualise: the interface value was made on this path from a value of known concrete type
-		if mi, ok := recv.(*MakeIfaceV); ok && mi.X != nil && mi.X.Type() != nil {
-			if sel := en.P.SSA.MethodSets.MethodSet(mi.X.Type()).Lookup(c.Method.Pkg(), c.Method.Name()); sel == nil {
+		if mi, ok := recv.(*MakeIfaceV); ok && mi.X != nil && mi.Dyn != nil {
+			if sel := en.P.SSA.MethodSets.MethodSet(mi.Dyn).Lookup(c.Method.Pkg(), c.Method.Name()); sel == nil {
 				// the conversion to the named type that carries the method was transparent: stay symbolic
 			} else if m := en.P.SSA.MethodValue(sel); m != nil {
 				args = append(args, mi.X)
@@ -85,6 +85,11 @@ func (en *Engine) doCall(st *State, fr *Frame, x *ssa.Call) ([]*State, bool, err
 	}
 	if c.IsInvoke() {
 		st.addEvent(&Event{Kind: EvDeref, Instr: x, X: args[0], Callee: "invoke"})
+	}
+	if callee != nil && callee.Blocks != nil && isThunk(callee) && len(st.frames) < 12 && en.Inline != nil {
+		// method-expression thunks and receiver-adjusting wrappers only forward to the declared method
+		en.pushFrame(st, fr, x, callee, bindings, args, false, "")
+		return nil, true, nil
 	}
 	if callee != nil && callee.Blocks != nil && stdInlined(callee) && !en.inStack(st, callee) && len(st.frames) < 12 && en.Inline != nil {
 		// small, pure standard-library helpers over slices are simulated like module code: their loops are the
@@ -589,6 +594,11 @@ func moduleTreePure(p *Prog, fn *ssa.Function, seen map[*ssa.Function]bool) bool
 // isBoundWrapper: go/ssa's synthetic wrapper for a method value x.m (one free variable: the receiver).
 func isBoundWrapper(fn *ssa.Function) bool {
 	return fn != nil && strings.HasPrefix(fn.Synthetic, "bound method wrapper")
+}
+
+// isThunk: go/ssa's synthetic forwarding functions for method expressions T.m and promoted/receiver-adjusted methods.
+func isThunk(fn *ssa.Function) bool {
+	return fn != nil && (strings.HasPrefix(fn.Synthetic, "thunk for") || strings.HasPrefix(fn.Synthetic, "wrapper for"))
 }
 
 // boundTarget: the declared method behind a bound-method wrapper (nil for interface methods and non-wrappers).
